@@ -427,7 +427,7 @@ void SyntaxTree::newDiagnostic(DiagnosticDescriptor descriptor,
     FileLinePositionSpan line(P->filePath_, start, end);
     std::string snippet;
 
-    auto it = std::lower_bound(P->startOfLineOffsets_.begin(), P->startOfLineOffsets_.end(), tk.charStart());
+    auto it = std::upper_bound(P->startOfLineOffsets_.begin(), P->startOfLineOffsets_.end(), tk.charStart());
     if (it != P->startOfLineOffsets_.begin()) {
         --it;
 
